@@ -18,8 +18,8 @@ T = {
   note="Partial: unproved rules and compile-time evaluation are decided by the differential search only; float round-off of arithmetic rewrites is outside the integer reference semantics.",
   technique="Coq rule-soundness proofs + validated optimiser outputs + rewrite-configuration differential on the implementation"),
  "C02": dict(
-  text="Machine-checked frame theorem (Coq, closed): for every tree accepted by a Gallina transcription of the signature checker (src/check.rs) that satisfies the stored-signature invariant, for EVERY semantics of the primitives, every function table, every stack and every failure point, the interpreter model (src/run.rs exec_impl; run_prim_mod's routing modifiers incl. by; try, case, fill, switch with a scalar selector, calls, arrays, constant globals, under-stack instructions; the iterating modifiers rows/each/inventory/reduce/scan/fold/table/tuples/group/partition/stencil/reduce-content, repeat and repeat-with-inverse with the array side abstracted by oracles that decide how often the operand runs and on what) consumes exactly the counted arguments, produces the counted outputs, leaves everything beneath untouched on the stack and on the hidden context stack, and restores fill stack, fill boundaries and call depth; the run-time frame check can never fire. Tied every run: (V) the checker model equals Node::sig() on every function body/operand/root of compiled corpus programs and the invariant is evaluated on them; (C) the interpreter model equals the real interpreter on generated integer programs; (search) sentinel experiment on the implementation.",
-  note="Not carried by the theorem: primitives whose Rust body pops/pushes differently from its table entry, and that the iterating modifiers' Rust bodies push exactly sa values and pop so results per step (tie/search only); do-loops, dynamic functions, array-selector switches, iterated operands that touch the under stack and fork/bracket operands with under effects are outside the proved fragment (the model returns Unk / the invariant excludes them; measured share reported in the evidence: 286 of 369 corpus programs fully inside); u16 truncation of signatures.",
+  text="Machine-checked frame theorem (Coq, closed): for every tree accepted by a Gallina transcription of the signature checker (src/check.rs) that satisfies the stored-signature invariant, for EVERY semantics of the primitives, every function table, every stack and every failure point, the interpreter model (src/run.rs exec_impl; run_prim_mod's routing modifiers incl. by, both/un-both and on with numeric subscripts; try with ANY number of handlers, case, fill, switch with a scalar selector, calls, arrays, constant globals, under-stack instructions; the iterating modifiers rows/each/inventory/reduce/scan/fold/table/tuples/group/partition/stencil/reduce-content, repeat and repeat-with-inverse, do-loops whose body undoes what the condition leaves, with the array side abstracted by oracles that decide how often the operand runs and on what) consumes exactly the counted arguments, produces the counted outputs, leaves everything beneath untouched on the stack and on the hidden context stack, and restores fill stack, fill boundaries and call depth; the run-time frame check can never fire. Tied every run: (V) the checker model equals Node::sig() on every function body/operand/root of compiled corpus programs and the invariant is evaluated on them; (C) the interpreter model equals the real interpreter on generated integer programs; (search) sentinel experiment on the implementation.",
+  note="Not carried by the theorem: primitives whose Rust body pops/pushes differently from its table entry, and that the iterating modifiers' Rust bodies push exactly sa values and pop so results per step (tie/search only); do-loops with preserved or collected values, dynamic functions, array-selector switches, unfill / sided fills, sided both, undo-rows, iterated operands that touch the under stack and fork/bracket operands with under effects are outside the proved fragment (the model returns Unk / the invariant excludes them; measured share reported in the evidence: 304 of 369 corpus programs fully inside); u16 truncation of signatures.",
   technique="Coq proof by simulation between the checker's counters and the real stack (induction on fuel), validated on compiler output + interpreter correspondence + sentinel search"),
  "C03": dict(
   text="Verified validator for inverses: an inductive relation of exactly-invertible templates with a decision procedure proved sound, left/right inverse laws proved by induction on the derivation over the reference semantics, signature duality checked on every exported (F, un F, un un F, anti F) of the real compiler for the catalogue to depth 4, plus the inverse laws searched directly on the implementation.",
@@ -54,8 +54,8 @@ T = {
   note="Layout (multi-line, alignment, comments) and name-to-glyph resolution have no theorem.",
   technique="Coq adjacency proofs + validated compile equality + formatter search over all configurations"),
  "C11": dict(
-  text="Machine-checked (Coq, closed): if the first function of try fails at ANY point (arbitrary primitive semantics and failure points), the handler starts in exactly the original state - same stack (error value slipped in beneath the arguments iff asked for), same hidden context stack, fill stack, fill boundaries and call depth - so try behaves like the handler alone; at every failure point the values beneath a checked function's arguments are intact. Proved on the interpreter model of exec_clean_stack/try_ with F ranging over every modelled construct (nested through rows/each/reduce/repeat/fill/switch/calls with the array side abstract); tied by running generated try programs with injected failures on model and implementation; searched by comparing try with the handler alone (sentinels, hidden-stack depths, inside fill/dip/nested try) and REPL-style sessions.",
-  note="One handler; chained handlers, pattern/case and unmodelled scoped state (recur, memo, channels) are search only; errors raised through `case` pass through a plain try by design.",
+  text="Machine-checked (Coq, closed): if the first function of try fails at ANY point (arbitrary primitive semantics and failure points), the handler starts in exactly the original state - same stack (error value slipped in beneath the arguments iff asked for), same hidden context stack, fill stack, fill boundaries and call depth - so try behaves like the handler alone; for ANY number of handlers and any position in the chain the next function starts from exactly the try's original arguments when the current one fails (the loop of algorithm::try_ is transcribed; the loop of the pinned commit is kept and refuted); at every failure point the values beneath a checked function's arguments are intact. Proved on the interpreter model of exec_clean_stack/try_ with F ranging over every modelled construct (nested through rows/each/reduce/repeat/fill/switch/calls with the array side abstract); tied by running generated try programs with injected failures on model and implementation; searched by comparing try with the handler alone (sentinels, hidden-stack depths, inside fill/dip/nested try) and REPL-style sessions.",
+  note="try_rollback / try_success are stated for one handler, try_every_handler_sees_original for chains; pattern/case and unmodelled scoped state (recur, memo, channels, unfill stack) are search only; errors raised through `case` pass through a plain try by design.",
   technique="Coq proof on the interpreter model (frame theorem + try rollback) + interpreter correspondence + failure-injection search"),
  "C12": dict(
   text="Coq theorems about a generic memo table (invisible for every history iff the key determines the cached function, also in hashed-key form) and, per thread-local cache, which ingredients of a model node the key feeds versus what the cached computation reads: sufficient for the signature and comptime caches, refuted with witnesses mirroring real failing pairs for the inverse, fast-row-function and purity caches, sufficiency proved for repaired keys; tied by three correspondences (real keys equal/unequal on one-ingredient pairs, real cache hit behaviour, equal deps give equal results); searched by program histories against fresh threads and multi-thread runs.",
